@@ -307,12 +307,25 @@ SCRIPTS_THOROUGH = collections.OrderedDict([
 
 def check_line_formation(ck, ctx, lm, rule="O-form"):
     """the lines handed to the line machine do not depend on CRLF versus LF, on tabs versus blanks, on the amount of blanks, or on
-    whether commas / parentheses are glued to their neighbours (compared blank-normalised, line by line)"""
+    whether commas / parentheses are glued to their neighbours (compared line by line as the scanner cuts them into lexemes)"""
     n = 0
+
+    from .seam import lexemes
+
+    def lx(v):
+        """the lexemes of a text (per exemplar): what the scanner makes of it - blanks and glued punctuation do not matter"""
+        if isinstance(v, W):
+            out = [" ".join(lexemes(ctx.lexer, x)) if isinstance(x, str) else x for x in v.ex]
+            return out[0] if all(o == out[0] for o in out[1:]) else W(out)
+        if isinstance(v, str):
+            return " ".join(lexemes(ctx.lexer, v))
+        if isinstance(v, list):
+            return [lx(x) for x in v]
+        return v
 
     def lines_of(texts):
         lines, regs = lm.form_lines(W([texts[i % len(texts)] for i in range(6)]))
-        return [ws(x) for x in lines]
+        return [lx(x) for x in lines]
 
     def drop_blank(ls):
         out = []
@@ -326,8 +339,8 @@ def check_line_formation(ck, ctx, lm, rule="O-form"):
     variants = [
         ("CRLF line ends", lambda t: t.replace("\n", "\r\n")),
         ("tabs for indentation", lambda t: t.replace("\n  ", "\n\t")),
-        ("tabs between words", lambda t: t.replace(" int", "\tint").replace(" text", "\ttext")),
-        ("more blanks between words", lambda t: t.replace(" ", "   ")),
+        ("tabs between words", lambda t: _outside_quotes(t, lambda c: c.replace(" int", "\tint").replace(" text", "\ttext"))),
+        ("more blanks between words", lambda t: _outside_quotes(t, lambda c: c.replace(" ", "   "))),
         ("blanks around commas and parentheses", lambda t: _outside_quotes(t, lambda c: c.replace(",", " , ").replace("(", " ( ").replace(")", " ) "))),
         ("trailing blanks on every line", lambda t: t.replace("\n", "   \n")),
         ("blank lines between the lines", lambda t: t.replace("\n", "\n\n")),
@@ -353,7 +366,7 @@ def check_line_formation(ck, ctx, lm, rule="O-form"):
         except (PyRaise, Raised, NonUniform, LexUnknown) as e:
             raise AnalysisError(f"line formation of the reference script `{sname}` cannot be evaluated: {e}")
         h0 = lm.run_script(W([texts[i % len(texts)] for i in range(6)]))
-        ref_handed[sname] = (ws(list(h0[0])), h0[1])
+        ref_handed[sname] = (lx(list(h0[0])), h0[1])
         for vname, fn in variants:
             n += 1
             try:
@@ -363,7 +376,7 @@ def check_line_formation(ck, ctx, lm, rule="O-form"):
                 if ok:
                     # and the whole of parse_data (its own line loop included): the same statements reach the grammar
                     h = lm.run_script(W([fn(texts[i % len(texts)]) for i in range(6)]))
-                    ok = same(ws(list(h[0])), ref_handed[sname][0]) and same(h[1], ref_handed[sname][1])
+                    ok = same(lx(list(h[0])), ref_handed[sname][0]) and same(h[1], ref_handed[sname][1])
                     detail = "" if ok else f"statements {_s(h[0])!r} / result {_s(h[1])!r} instead of {_s(ref_handed[sname][0])!r} / {_s(ref_handed[sname][1])!r}"
             except (PyRaise, Raised) as e:
                 ok, detail = False, f"raises {e}"
@@ -371,6 +384,16 @@ def check_line_formation(ck, ctx, lm, rule="O-form"):
                 ok, detail = False, f"the exemplar scripts are treated differently: {e}"
             ck.ob(rule, f"{vname} ({sname})", ok, "the same lines (blank-normalised) must reach the line machine" + ("; " + detail if detail else ""),
                   "Parser.pre_process_data / parse_data (evaluated abstractly)", witness=None if ok else repr(fn(texts[0]))[:200])
+    # a word alone on its line, then a line that starts with a literal (no indentation on either)
+    n += 1
+    try:
+        a = lx(list(lm.run_script("CREATE SCHEMA mood COMMENT 'sad';\n")[0]))
+        b = lx(list(lm.run_script("CREATE SCHEMA mood\nCOMMENT\n'sad';\n")[0]))
+        ok, detail = same(a, b), f"{b!r} instead of {a!r}"
+    except (PyRaise, Raised) as e:
+        ok, detail = False, f"raises {e}"
+    ck.ob(rule, "a word alone on its line, then a literal", ok, "the same statement must reach the grammar" + ("" if ok else "; " + detail),
+          "Parser.parse_data (evaluated abstractly)", witness=None if ok else "CREATE SCHEMA mood\nCOMMENT\n'sad';")
     ck.count("line_formation_instances", n)
 
 
